@@ -503,3 +503,45 @@ def lemma_chunk():
                     status='discharged' if r == z3.unsat else ('failed' if r == z3.sat else 'unknown'), solver='z3py-%s' % z3.get_version_string(),
                     secs=time.time() - t0, model=None, info=None, line=None))
     return out
+
+
+@unit(name='serializer.scratch-files', relpath=SMOD, qual=['Serializer.serialize', 'Serializer.setTransmissionData'], props=['C09', 'C06'],
+      doc='O9.2 across the two writers of the dump path: the scratch file of the node\'s own serialize() and the scratch file of an incoming '
+          'chunked snapshot are different files (and neither is the dump path), so a compaction that runs while a transfer is half received '
+          'cannot truncate or rename the file the transfer is still writing - the dump path stays a complete old or new snapshot',
+      trusted=['T-FILE', 'T-RENAME'])
+def ser_scratch_files(ctx):
+    names = {}
+
+    def opener(tag):
+        def _open(I, args, kw):
+            names.setdefault(tag, []).append((args[0], args[1] if len(args) > 1 else 'r'))
+            return I.ctx.alloc(FileObj(args[0], args[1] if len(args) > 1 else 'r'))
+        return _open
+
+    def gz(I, args, kw):
+        return I.ctx.alloc(GzCtx(kw.get('fileobj')))
+    # own dump (file mode, no fork)
+    ser, data, B, pid = mk_ser(ctx, True)
+    ctx.setcell(ser, ctx.cell(ser).with_field(SF('useFork'), False))
+    ctx.assume(pid == 0)
+    mod = source.load(SMOD)
+    ext = {'open': opener('serialize'), 'atomicReplace': lambda I, a, k: None, 'atomic_replace.atomicReplace': lambda I, a, k: None,
+           'gzip.GzipFile': gz, 'pickle.dump': lambda I, a, k: None}
+    I = Interp(ctx, externals=ext)
+    fn, ci = mod.find('Serializer.serialize')
+    I.call_funcdef(fn, mod, 'Serializer', ser, [('state', 'e1', 'e0', 'cluster'), 5], {}, None, 'Serializer.serialize')
+    # incoming first chunk on the same object
+    ser2, data2, B2, pid2 = mk_ser(ctx, True)
+    ext2 = dict(ext)
+    ext2['open'] = opener('incoming')
+    ext2['pickle.to_bytes'] = lambda I, a, k: a[0]
+    I2 = Interp(ctx, externals=ext2)
+    fn2, ci2 = mod.find('Serializer.setTransmissionData')
+    I2.call_funcdef(fn2, mod, 'Serializer', ser2, [(fresh_win(ctx, 'chunk'), True, False)], {}, None, 'Serializer.setTransmissionData')
+    a = [n for n, m in names.get('serialize', []) if 'w' in m]
+    b = [n for n, m in names.get('incoming', []) if 'w' in m]
+    ctx.prove(len(a) == 1 and len(b) == 1, 'C09:O9.2.each-writer-opens-one-scratch-file', info=repr(names))
+    if a and b:
+        ctx.prove(isinstance(a[0], str) and isinstance(b[0], str) and a[0] != b[0], 'C09+C06:O9.2.scratch-files-of-the-two-writers-are-distinct', info='%r vs %r' % (a[0], b[0]))
+        ctx.prove(a[0] != 'dump.bin' and b[0] != 'dump.bin', 'C09+C06:O9.2.dump-path-only-renamed-onto')
